@@ -35,9 +35,7 @@ package otlploghttp
 //@   prop C14
 //@   overflow assumed
 //@   unchecked frame,no-panic net/http, protobuf and io are outside the contracts
-//@   assert@call newResponseError#1 : $arg1 != nil ==> true
-//@   assert@call newResponseError#2 : resp != nil && (resp.StatusCode == 429 || resp.StatusCode == 502 || resp.StatusCode == 503 || resp.StatusCode == 504)
-//@   assert@call newResponseError#* : $arg1 === bodyErr ==> resp != nil && (resp.StatusCode == 429 || resp.StatusCode == 502 || resp.StatusCode == 503 || resp.StatusCode == 504)
+//@   assert@call newResponseError#2+ : resp != nil && (resp.StatusCode == 429 || resp.StatusCode == 502 || resp.StatusCode == 503 || resp.StatusCode == 504)
 
 // ======================================================================== C20 configuration resolvers of the log exporter
 // getenv: an explicitly set value is never replaced by the environment; when the resolver gives up (result unset) it has read
